@@ -44,7 +44,8 @@ func startWorker(dir string, n int) (*worker, error) {
 	}
 	cmd := exec.Command(os.Args[0], "child")
 	cmd.Stderr = ef
-	cmd.Env = append(os.Environ(), "GOTRACEBACK=all")
+	os.MkdirAll(filepath.Join(dir, "certs"), 0o755)
+	cmd.Env = append(os.Environ(), "GOTRACEBACK=all", "C08_CERTDIR="+filepath.Join(dir, "certs"))
 	in, err := cmd.StdinPipe()
 	if err != nil {
 		return nil, err
@@ -126,6 +127,9 @@ func lowLevel(f string) bool {
 // else the innermost function above the dereference/type helpers.
 func hangFrame(stderr string) string {
 	l := frames(stderr, "main.runOp")
+	if len(l) == 0 {
+		l = frames(stderr, "") // dump cut short: take the first goroutine that shows pdfcpu frames
+	}
 	if len(l) == 0 {
 		return "unknown"
 	}
